@@ -46,7 +46,8 @@ func genRKG(t *rapid.T) RKGCase {
 	return c
 }
 
-func rkgOps(p multiparty.RelinearizationKeyGenProtocol, ek rlwe.EvaluationKeyParameters, round int) aggOps[multiparty.RelinearizationKeyGenShare] {
+func rkgOps(p multiparty.RelinearizationKeyGenProtocol, ek rlwe.EvaluationKeyParameters, round int, c Common) aggOps[multiparty.RelinearizationKeyGenShare] {
+	rng := c.junk()
 	return aggOps[multiparty.RelinearizationKeyGenShare]{
 		clone: func(s multiparty.RelinearizationKeyGenShare) multiparty.RelinearizationKeyGenShare {
 			return multiparty.RelinearizationKeyGenShare{GadgetCiphertext: *s.GadgetCiphertext.CopyNew()}
@@ -54,7 +55,10 @@ func rkgOps(p multiparty.RelinearizationKeyGenProtocol, ek rlwe.EvaluationKeyPar
 		alloc: func() multiparty.RelinearizationKeyGenShare {
 			_, r1, r2 := p.AllocateShare(ek)
 			if round == 1 {
-				return r1
+				r2 = r1
+			}
+			if c.DirtyOut {
+				dirtyGadget(&r2.GadgetCiphertext, c.Params, rng)
 			}
 			return r2
 		},
@@ -97,6 +101,7 @@ func runRKG(c RKGCase, rec *h.Rec) error {
 	params, n := w.params, w.n
 	ek := c.Key.evk()
 
+	junk := c.junk()
 	protos := make([]multiparty.RelinearizationKeyGenProtocol, n)
 	crps := make([]multiparty.RelinearizationKeyGenCRP, n)
 	eph := make([]*rlwe.SecretKey, n)
@@ -122,6 +127,16 @@ func runRKG(c RKGCase, rec *h.Rec) error {
 			return h.Failf("C14:CRS:parties-read-different-polynomials", "party %d read other reference polynomials than party 0 after the same %d+1 SampleCRP calls (RKG)", i, len(c.Pre))
 		}
 		eph[i], r1[i], r2[i] = protos[i].AllocateShare(ek)
+		switch c.Receiver {
+		case 1:
+			dirtyGadget(&r1[i].GadgetCiphertext, c.Params, junk)
+			dirtyGadget(&r2[i].GadgetCiphertext, c.Params, junk)
+			dirtyQP(eph[i].Value, c.Params, junk)
+		case 2:
+			// an earlier run of both rounds with another CRP into the same ephemeral key and share objects
+			protos[i].GenShareRoundOne(w.sks[i], protos[i].SampleCRP(junkCRS(c.Common), ek), eph[i], &r1[i])
+			protos[i].GenShareRoundTwo(eph[i], w.sks[i], r1[i], &r2[i])
+		}
 		var in inputSnap
 		in.snap("secret-key", w.sks[i].Value)
 		in.snap("crp", f...)
@@ -134,7 +149,7 @@ func runRKG(c RKGCase, rec *h.Rec) error {
 		}
 	}
 
-	ops1 := rkgOps(protos[0], ek, 1)
+	ops1 := rkgOps(protos[0], ek, 1, c.Common)
 	ref1, err := refAggregate(r1, ops1)
 	if err != nil {
 		return h.Failf("C14:RKG:aggregation-failed", "round one, index order: %v", err)
@@ -174,7 +189,7 @@ func runRKG(c RKGCase, rec *h.Rec) error {
 			}
 		}
 	}
-	ops2 := rkgOps(protos[0], ek, 2)
+	ops2 := rkgOps(protos[0], ek, 2, c.Common)
 	ref2, err := refAggregate(r2, ops2)
 	if err != nil {
 		return h.Failf("C14:RKG:aggregation-failed", "round two, index order: %v", err)
@@ -191,6 +206,9 @@ func runRKG(c RKGCase, rec *h.Rec) error {
 	}
 
 	rlk := rlwe.NewRelinearizationKey(params, ek)
+	if c.DirtyOut {
+		dirtyGadget(&rlk.GadgetCiphertext, c.Params, junk)
+	}
 	if err := callErr(protos[n-1].GenRelinearizationKey, agg1, agg2, rlk); err != nil {
 		return h.Failf("C14:RKG:GenRelinearizationKey-error", "finalisation of matching shares and key failed: %v", err)
 	}
@@ -267,6 +285,7 @@ func runRKG(c RKGCase, rec *h.Rec) error {
 	}
 
 	rec.Class(nClass(n))
+	rec.Class(c.receiverClass())
 	rec.Class(ringClass(c.Params))
 	rec.Class("r1:" + c.Sched1.descr())
 	rec.Class("r2:" + c.Sched2.descr())
@@ -283,9 +302,9 @@ func runRKG(c RKGCase, rec *h.Rec) error {
 	for _, v := range c.R1Ser {
 		travels = travels || v != 0
 	}
-	if (c.Sched1.nontrivial() || c.Sched2.nontrivial() || uneq || travels) && (rowsDisc || functional == "asserted") {
+	if (c.Sched1.nontrivial() || c.Sched2.nontrivial() || uneq || travels || c.Receiver != 0 || c.DirtyOut) && (rowsDisc || functional == "asserted") {
 		rec.NonTrivial(fmt.Sprintf("rkg|%s|%s|%s|%s|%s|%s|uneq=%v|func=%s|travels=%v|shallow=%v", nClass(n), ringClass(c.Params), c.Sched1.descr(), c.Sched2.descr(),
-			keyClass(c.Params, c.Key), sizeClass(c.Params.Q), uneq, functional, travels, c.Shallow))
+			keyClass(c.Params, c.Key), sizeClass(c.Params.Q), uneq, functional, travels, c.Shallow) + "|" + c.receiverClass())
 	}
 	return nil
 }
